@@ -617,6 +617,10 @@ func (h *H) result(class string, okStr string) {
 		okStr += h.typedBad
 		h.typedBad = ""
 	}
+	// the value variants of the typed API against the ID-based reads (once per process; typed.go)
+	if bad := selfCheckTyped(); bad != "" && class == "" {
+		okStr += bad
+	}
 	if class != "" {
 		h.panicCount[class]++
 		h.emit("panic " + class)
